@@ -30,7 +30,15 @@ SCN = {
     "map": ({"StartAt": "M", "States": {"M": {"Type": "Map", "ItemsPath": "$.items", "MaxConcurrency": 1, "End": True,
              "Iterator": {"StartAt": "I", "States": {"I": scn.task("f", End=True)}}}}}, ["f"]),
 }
-DATA = {"chain": {"x": 1}, "wait": {"x": 1}, "par": {"x": 1}, "map": {"items": [{"i": 0}, {"i": 1}]}}
+SCN["parnext"] = ({"StartAt": "P", "States": {"P": {"Type": "Parallel", "Next": "Z", "ResultPath": "$.p", "Branches": [
+    {"StartAt": "A", "States": {"A": {"Type": "Pass", "Result": "a", "End": True}}},
+    {"StartAt": "B", "States": {"B": {"Type": "Pass", "Result": "b", "End": True}}}]},
+    "Z": {"Type": "Pass", "Result": "z", "ResultPath": "$.z", "End": True}}}, [])
+DATA = {"chain": {"x": 1}, "wait": {"x": 1}, "par": {"x": 1}, "map": {"items": [{"i": 0}, {"i": 1}]}, "parnext": {"x": 1}}
+# The volatile-join-results known finding applies only where a result cannot be recomputed from the
+# redelivered (held) branch event: Task-produced results, completed MaxConcurrency batches, End:true joins
+# (events acknowledged before the terminal record).  Pass-only branches joined by a state with Next recover.
+JOIN_LOSS_POSSIBLE = {"chain": False, "wait": False, "par": True, "map": True, "parnext": False}
 
 
 def run_with_crash(name, mode, crash_at, picks, second=None):
@@ -103,7 +111,7 @@ def baseline(name):
 def verdict(name, mode, crash_at, picks, second=None):
     (bstatus, boutput), breq, bops, bsteps = BASE[name]
     run, terms, ncrash = run_with_crash(name, mode, crash_at, picks, second)
-    tag = "[join-state-lost] " if run.join_state_lost else ""
+    tag = "[join-state-lost] " if (run.join_state_lost and JOIN_LOSS_POSSIBLE[name]) else ""
     for r in TOLERATED:
         if tag and r.search(tag):
             # recorded known finding: volatile join results whose events were already acknowledged
@@ -175,3 +183,4 @@ _mk("chain", ("quick", "thorough"))
 _mk("wait", ("quick", "thorough"))
 _mk("par", ("quick", "thorough"))
 _mk("map", ("thorough",))
+_mk("parnext", ("quick", "thorough"))
